@@ -480,7 +480,7 @@ func disconnectFamily(c *Case) {
 	mgr := &recMgr{ClientManager: ts.Srv.ClientMgr}
 	ts.Srv.ClientMgr = mgr
 	banPath := filepath.Join(ts.Cfg, "Banlist.yaml")
-	ips := ipPool(r, 3)
+	ips := ipPool(r, 4)
 	targetIP, otherIP, adminIP := ips[0], ips[1], ips[2]
 	targetAddr := fmt.Sprintf("%s:%d", targetIP, 2000+r.Intn(50000))
 	waitCount := func(b *WireClient, n int) bool {
@@ -493,7 +493,11 @@ func disconnectFamily(c *Case) {
 		}
 	}()
 	login := func(addr, login string, pw []byte, name string, expect int) *WireClient {
-		b, err := ts.LoginOK(addr, login, string(hotline.EncodeString(pw)), nil, fld(hotline.FieldUserName, []byte(name)), fld(hotline.FieldVersion, []byte{0, 0xbe}))
+		extra := []hotline.Field{fld(hotline.FieldVersion, []byte{0, 0xbe})}
+		if name != "" { // no name field = the 1.5+ login flow: the name only comes with TranAgreed
+			extra = append(extra, fld(hotline.FieldUserName, []byte(name)))
+		}
+		b, err := ts.LoginOK(addr, login, string(hotline.EncodeString(pw)), nil, extra...)
 		conns = append(conns, b)
 		if err != nil || !waitCount(b, expect) {
 			return nil
@@ -509,15 +513,64 @@ func disconnectFamily(c *Case) {
 		fixtureLoginFailed(c, "administrator login")
 		return
 	}
-	target := login(targetAddr, "", []byte{}, "target", 3)
+	// the target's session state: named at login; logged in without a name and not agreed yet (listed
+	// with an empty name); or agreed without ever sending a name
+	targetState := pickStr(r, "named", "named", "nameless-not-agreed", "nameless-not-agreed", "agreed-empty-name")
+	tname := "target"
+	if targetState != "named" {
+		tname = ""
+	}
+	c.Dist("target/" + targetState)
+	c.Note("target_state", targetState)
+	target := login(targetAddr, "", []byte{}, tname, 3)
 	if target == nil {
 		fixtureLoginFailed(c, "target login")
 		return
+	}
+	if targetState == "agreed-empty-name" {
+		target.Conn.Feed(encTran(tranOf(121, 0x70000005, fld(hotline.FieldUserIconID, []byte{0, 1}), fld(hotline.FieldOptions, []byte{0, 0}))))
+		if !waitCount(target, 5) {
+			fixtureLoginFailed(c, "target agreement")
+			return
+		}
 	}
 	bystander := login(otherIP+":4000", "", []byte{}, "bystander", 3)
 	if bystander == nil {
 		fixtureLoginFailed(c, "bystander login")
 		return
+	}
+	// a user that logged in without a name and simply leaves: the others must be told as well
+	if r.Chance(50) {
+		ghostAddr := ips[3] + ":4100"
+		ghost := login(ghostAddr, "", []byte{}, "", 3)
+		if ghost == nil {
+			fixtureLoginFailed(c, "nameless user login")
+			return
+		}
+		var ghostID [2]byte
+		for _, cc := range ts.Srv.ClientMgr.List() {
+			if cc.RemoteAddr == ghostAddr {
+				ghostID = cc.ID
+			}
+		}
+		from := len(bystander.Conn.Written())
+		ghost.Conn.EOF()
+		ghost.WaitDone(5 * time.Second)
+		toldGhost := waitFor(6*time.Second, func() bool {
+			trs, _, _ := splitTransactions(bystander.Conn.Written()[from:])
+			for _, t := range trs {
+				if u16(t.Type) == 302 && bytes.Equal(t.GetField(hotline.FieldUserID).Data, ghostID[:]) {
+					return true
+				}
+			}
+			return false
+		})
+		c.Dist("plain-leave-of-nameless-user")
+		if !toldGhost {
+			c.Note("left_user_id", u16(ghostID))
+			c.Violation("others-not-told", "a listed user without a name closed its connection and the other users were not told that it left")
+			return
+		}
 	}
 	var targetID [2]byte
 	found := false
@@ -725,7 +778,7 @@ func disconnectFamily(c *Case) {
 		return
 	}
 	if !told {
-		c.Violation("others-not-told", "the other users were not told that the disconnected user left")
+		c.Violation("others-not-told", "the other users were not told that the disconnected user ("+targetState+") left")
 		return
 	}
 	for _, cc := range ts.Srv.ClientMgr.List() {
@@ -806,7 +859,7 @@ func disconnectFamily(c *Case) {
 		h := c.O.Ask(fmt.Sprintf("banhist %s %d %sd %s %s %d%s", hx([]byte(k.addr)), now.UnixNano(), histPre, hx([]byte(targetIP)), optArg, at, map[bool]string{true: " r", false: ""}[restart]))
 		c.Corr("handler-decision", fmt.Sprintf("refused=%d", b2i(o.Notice != nil)), strings.Fields(h + " x")[0], false)
 	}
-	c.Nontrivial(fmt.Sprintf("%s|%s|%s|%v|%d", optName, preKind, strings.Join(ips, ","), restart, len(kns)))
+	c.Nontrivial(fmt.Sprintf("%s|%s|%s|%s|%v|%d", targetState, optName, preKind, strings.Join(ips, ","), restart, len(kns)))
 	c.Sample(map[string]any{"family": "disconnect-ban", "option": optName, "existing_entry": preKind, "restart_before_reconnect": restart, "reconnects": len(kns)})
 }
 
@@ -1043,7 +1096,7 @@ func concurrentBansFamily(c *Case) {
 
 func init() {
 	props["C17"] = func(x *Ctx) {
-		x.rule = "gate-expiry: per case one real server, 4-6 distinct IPv4 addresses (35% textual neighbours: a.b.c.d vs a.b.c.d0 / 1a.b.c.d / last octet+1), 0..2n ban operations (30% permanent; temporary with expiry now +- {3s,5s,20s,1m,29m,30m,31m,1h,24h,400d}, newest wins) through BanFile.Add or by writing Banlist.yaml and loading it, 25% followed by a restart (fresh NewBanFile); then one connection per address (handshake + guest login + keep-alive / nothing / garbage / partial login), all concurrently. disconnect-ban: administrator, target and bystander logged in over the wire from distinct IPv4 addresses; disconnect request with option none/0/1/2/3; reconnects from the target's and another address, half of them after a restart. disconnect-ban additionally: in 60% the target's address already has an entry (expired temporary / running temporary / permanent, added or written into the ban file) that the request must overwrite (a plain disconnect must leave it). ban-history: 1..14 Add/restart operations over 2-5 addresses, every address queried after every step. concurrent-bans: 5..13 rounds of 4..8 simultaneous BanFile.Add calls for distinct addresses, 30% restarts between rounds, final restart: the file must load and hold every acknowledged ban. non-trivial = at least one listed address is knocked on / a ban option case / a history with both an Add and a restart; distinct = distinct histories and address sets"
+		x.rule = "gate-expiry: per case one real server, 4-6 distinct IPv4 addresses (35% textual neighbours: a.b.c.d vs a.b.c.d0 / 1a.b.c.d / last octet+1), 0..2n ban operations (30% permanent; temporary with expiry now +- {3s,5s,20s,1m,29m,30m,31m,1h,24h,400d}, newest wins) through BanFile.Add or by writing Banlist.yaml and loading it, 25% followed by a restart (fresh NewBanFile); then one connection per address (handshake + guest login + keep-alive / nothing / garbage / partial login), all concurrently. disconnect-ban: administrator, target and bystander logged in over the wire from distinct IPv4 addresses; disconnect request with option none/0/1/2/3; reconnects from the target's and another address, half of them after a restart. disconnect-ban: the target is named at login / logged in without a name and has not agreed / agreed with an empty name; in 50% a nameless user also simply leaves (the others must be told in every case); additionally: in 60% the target's address already has an entry (expired temporary / running temporary / permanent, added or written into the ban file) that the request must overwrite (a plain disconnect must leave it). ban-history: 1..14 Add/restart operations over 2-5 addresses, every address queried after every step. concurrent-bans: 5..13 rounds of 4..8 simultaneous BanFile.Add calls for distinct addresses, 30% restarts between rounds, final restart: the file must load and hold every acknowledged ban. non-trivial = at least one listed address is knocked on / a ban option case / a history with both an Add and a restart; distinct = distinct histories and address sets"
 		x.assume = []string{
 			"expiry instants are kept at least 3 s away from the instant of the connection (the decision near the boundary depends on scheduling)",
 			"the 30-minute duration is checked as: stored expiry within [request sent, reply received] + 30 min; the expiry itself is exercised with entries placed directly in the ban list",
